@@ -179,7 +179,7 @@ PROPS = {
         "rules": R(E.rp1_reducer_thread_never_unwraps_a_shutdown_slot, r(DL.lk0_blocking_acquisitions, only=r"StoreImpl\\.(sender-slot|pool-slot|subscriber-list)|ChanneledWrapper|all-acquisitions|floor"), Q.q3_enqueue_under_sender_lock, Q.q4_close,
                    r(C.ch2_result_tells_enqueued, only=r"err-means-not-enqueued|ok-means-enqueued:BlockOnFull|floor"), r(_ch1_block, name="CH1"),
                    S.su3_shutdown_release, T.st1_stop_is_close_plus_join, T.st2_closed_means_err, T.st3_loop_exits,
-                   T.st4_callbacks_live_in_the_loop, T.st5_idempotent, r(C.dr1_result_mapping, only=r"result-maps-Ok|result-ignored|floor"),
+                   T.st4_callbacks_live_in_the_loop, T.st5_idempotent, r(C.dr1_result_mapping, only=r"result-maps-Ok|result-ignored|one-enqueue-attempt|floor"),
                    r(X.ch_channeled_release, name="R2"), S.lc3_release_under_list_lock),
         "explanation": "Static decision: accepted actions are enqueued under the sender lock (Q3,CH2), close() empties the slot under that lock before Exit is enqueued (Q4), the loop ends only on Exit/disconnect and then releases every subscriber, which joins channeled threads after disconnecting them (ST3,SU3,R2), stop() = close + join of the pool on every path without holding a store lock (ST1), closed => Err without effect and Err only when nothing was enqueued (ST2,CH2,DR1), callbacks exist only inside the joined loop (ST4), second close/stop do nothing (ST5). The blocking arm cannot give up (CH1); every release runs under the list lock in its calling context (LC3).",
         "not_decided": ["the 3 s timeout", "two racing shutdowns", "shutdown_join semantics (trusted)"],
@@ -194,7 +194,7 @@ PROPS = {
     },
     "C06": {
         "rules": R(r(_ch1_drop, name="CH1"), C.ch0_never_disconnected, C.ch2_result_tells_enqueued, C.ch3_drop_accounting, C.ch4_retry_identity,
-                   r(Q.q3_enqueue_under_sender_lock, drop=r":StoreImpl::close$"), r(C.dr1_result_mapping, only=r"result-maps-Err|result-ignored|floor"),
+                   r(Q.q3_enqueue_under_sender_lock, drop=r":StoreImpl::close$"), r(C.dr1_result_mapping, only=r"result-maps-Err|result-ignored|one-enqueue-attempt|floor"),
                    r(ME.me7_monotone, only=r"action_dropped"), r(C.ch5_capacity, only=r"capacity-(unmodified|modified|passed-through|from-field):|only-bounded|count:|floor"),
                    r(B.bu1_write_sets, only=r":policy$|floor"), r(B.bu3_pass_through, only=r"policy|floor"), C.ch6_immutable_config),
         "explanation": "Static decision by exhaustive path enumeration of the send wrapper: drop arms contain only non-blocking queue operations (CH1); Ok iff enqueued (CH2); each popped/rejected action is counted by exactly one action_dropped call (CH3; the counter is one fetch_add, ME7); DropOldest pops the head only on Full and re-sends the bounced item (CH4) with producers serialised by the sender lock (Q3); Dispatcher::dispatch maps Err to Err (DR1). The queue has the configured capacity (CH5), the configured policy reaches it (BU1,BU3), the DropLatest arm removes nothing from the queue (CH1).",
@@ -269,7 +269,7 @@ PROPS = {
                    r(_ch1_block, name="CH1"), r(_ch2_block, name="CH2"), r(PI3_NOTIFY, name="PI3"),
                    r(P.pi6_action_identity, only=r"NOTIFY"),
                    r(S.su2_unsubscribe, only=r"compares-element-with-own-subscriber|identity-test|removes-exactly-the-identical-element|on_unsubscribe-iff-removed|floor"),
-                   M.n4_notify_phase_not_bypassed),
+                   M.n4_notify_phase_not_bypassed, r(S.cb1_callbacks_hold_no_reentrant_lock, only=r"no-list-lock-in-on_notify|floor")),
         "explanation": "Static decision: iter() registers a direct subscriber that forwards each notification once into a capacity-1 blocking (lossless) channel (IT1,IT2,CH1,CH2) fed by the ordinary notify phase (N2,N3,PI3,PI6); Exit is sent by the shutdown release, which every path to the end of the reducer thread passes after the last notification (SU3); next() passes pairs through and is fused, drop detaches (IT3,IT4; exhaustive). The handle removes and releases exactly its own subscriber, once (SU2,LC3); the subscriber loop is not bypassed (N4).",
         "not_decided": ["blocking behaviour of dropping an iterator with an unread item (C13's finding)", "timing"],
         "exhaustive": True,
